@@ -400,7 +400,41 @@ def discharge(obls, budget=10.0, workers=None):
         for ob, r in zip(retry, results):
             ob.seconds += r['seconds']
             _record(ob, r, '')
+    open_ = [ob for ob in obls if ob.kind not in ('cover', 'enumerated') and ob.verdict not in ('sat', 'unsat')]
+    if open_ and len(open_) <= 8 and os.environ.get('PYVC_INSTANTIATE'):
+        refute_by_instantiation(open_, budget=min(budget, 10.0), workers=workers)
     return obls
+
+
+BOUNDARY_LENGTHS = [0, 1, 125, 126, 127, 65535, 65536, 65537]
+
+
+def refute_by_instantiation(obls, budget=10.0, lengths=None, workers=None):
+    """For obligations both solvers left open: look for a counterexample among concrete
+    boundary-length strings ('A' * L substituted for one string input at a time).  Each instance
+    is an under-approximation, so `sat` is a genuine counter-model; nothing else is concluded."""
+    lengths = lengths or BOUNDARY_LENGTHS
+    jobs = []
+    for ob in obls:
+        asserts = list(ob.assumptions) + [z3.Not(ob.goal)]
+        present = consts_in(asserts)
+        svars = [t for t in ob.inputs if z3.is_const(t) and t.decl().name() in present
+                 and t.sort() == z3.StringSort() and not t.decl().name().startswith('ret.')]
+        for v in svars[:2]:
+            for L in lengths:
+                sub = [z3.substitute(a, (v, z3.StringVal('A' * L))) for a in asserts]
+                gv = [smt_name(n) for n in input_names(ob) if n in consts_in(sub)]
+                jobs.append((ob, v, L, (ob.full + '#inst', smt.to_smt2(sub, gv), bool(gv), True)))
+    if not jobs:
+        return
+    results = smt.solve_many([j[3] for j in jobs], budget=budget, workers=workers)
+    for (ob, v, L, _), r in zip(jobs, results):
+        if r['verdict'] == 'sat' and ob.verdict != 'sat':
+            ob.verdict = 'sat'
+            ob.backend = (r['backend'] or '') + ' (boundary instance %s := 65*%d)' % (v.decl().name(), L)
+            ob.outputs = r['outputs']
+            ob.model = smt.parse_get_value(r.get('model_text', ''))
+            ob.model[v.decl().name()] = 'A' * L
 
 
 def _full_job(ob):
